@@ -255,6 +255,7 @@ func c14(tier string) []*explore.Scenario {
 	out = append(out, apiSeqs("C14", tier)...)
 	out = append(out, handlerSeqs("C14", tier)...)
 	out = append(out, opInWriteAll("C14", 1)...)
+	out = append(out, foreignContextCancel("C14", "Bidi", 2), foreignContextCancel("C14", "SStream", 1))
 	return out
 }
 
